@@ -289,6 +289,9 @@ func (c *CEnv) binop(e *CExpr) *Val {
 	}
 	a, b := c.tr(e.Args[0]), c.tr(e.Args[1])
 	a, b = unifyNil(a, b)
+	if e.Op != "==" && e.Op != "!=" && (a == nil || b == nil || a.T == nil || b.T == nil) {
+		cfail("operand of %s has no value the clause can talk about (a variable of an unsupported type?) in %s", e.Op, e)
+	}
 	switch e.Op {
 	case "==", "!=":
 		t := c.X.valEq(c.St, a, b)
@@ -559,6 +562,9 @@ func (c *CEnv) call(e *CExpr) *Val {
 			a := arg(i)
 			pt, _ := w.parseTypeText(lf.Params[i].Type, c.Pkg)
 			a = c.X.coerce(c.St, a, pt)
+			if a == nil || a.T == nil {
+				cfail("argument %d of %s has no value the clause can talk about in %s", i+1, lf.Name, e)
+			}
 			ts = append(ts, a.T)
 			sorts = append(sorts, a.T.Sort)
 		}
